@@ -115,7 +115,7 @@ inductive Res (κ ρ α : Type) where
   | ok (a : α)
   | err (e : ImpErr κ ρ)
   | outOfFuel
-  deriving Repr
+  deriving DecidableEq, Repr
 
 def Res.isErr {κ ρ α : Type} : Res κ ρ α → Bool
   | .err _ => true
@@ -168,7 +168,7 @@ def step (expand : κ → List (Import ρ) → St κ → Res κ ρ (St κ)) (doc
   | some file =>
     match (if p ∈ st.expanded then Res.ok st
            else match expand p file.imports { st with expanded := p :: st.expanded } with
-             | .ok st' => Res.ok { st' with finished := st'.finished ++ [p] }
+             | .ok st' => Res.ok { st' with finished := p :: st'.finished }
              | r => r) with
     | .ok st1 =>
       match missingTarget imp.targets file.defs with
@@ -224,7 +224,7 @@ inductive LRes (κ ρ α : Type) where
   | err (e : ImpErr κ ρ)
   | panic
   | outOfFuel
-  deriving Repr
+  deriving DecidableEq, Repr
 
 /-- state: the single `visited` set and the appended definitions -/
 structure LSt (κ : Type) where
